@@ -2,6 +2,7 @@
 alarm and an address-space limit; prints a JSON list of [status, detail, seconds, output]."""
 import sys, json, time, signal, resource
 LIMIT_S = float(sys.argv[1]) if len(sys.argv) > 1 else 20.0
+MARKER = sys.argv[2] if len(sys.argv) > 2 else None
 resource.setrlimit(resource.RLIMIT_AS, (3 << 30, 3 << 30))
 from picosvg.svg import SVG
 class Hang(BaseException): pass
@@ -16,19 +17,40 @@ for kind, doc in json.load(sys.stdin):
             svg = SVG.fromstring(doc); svg.resolve_use(inplace=True)
             left = len(svg.xpath('//svg:use'))
             r = ['ok', f'uses_left={left}', 0, '']
+        elif kind == 'tidy':
+            import picosvg.svg as psvg
+            log = []
+            orig = psvg.SVG._remove_redundant_groups
+            def probe(self):
+                before = len(self.xpath('//svg:g'))
+                removed = orig(self)
+                log.append([before, len(self.xpath('//svg:g')), bool(removed)])
+                return removed
+            psvg.SVG._remove_redundant_groups = probe
+            try: SVG.fromstring(doc).topicosvg()
+            except ValueError: pass
+            finally: psvg.SVG._remove_redundant_groups = orig
+            r = ['ok', json.dumps(log), 0, '']
         elif kind == 'gradient':
             svg = SVG.fromstring(doc)
             svg._apply_gradient_template(svg.xpath_one('//svg:*[@id="g0"]'))
             r = ['ok', 'resolved', 0, '']
         else:
-            out = SVG.fromstring(doc).topicosvg().tostring()
-            r = ['ok', '', 0, out]
+            svg = SVG.fromstring(doc)
+            # what the parser put into the tree (an external entity that was read shows up here)
+            leaked = bool(MARKER) and MARKER in svg.tostring()
+            out = svg.topicosvg(allow_text=(kind == 'convert_text')).tostring()
+            r = ['ok', 'parsed tree contains the external entity content' if leaked else '', 0, out + (MARKER if leaked else '')]
     except Hang: r = ['hang', f'no result within {LIMIT_S}s', 0, '']
     except MemoryError: r = ['memory', 'address-space limit reached', 0, '']
     except RecursionError as e: r = ['raise', 'RecursionError', 0, '']
-    except Exception as e: r = ['raise', type(e).__name__ + ': ' + str(e)[:300], 0, '']
+    except Exception as e:
+        r = ['raise', type(e).__name__ + ': ' + str(e)[:300], 0, '']
+        try:
+            if MARKER and MARKER in SVG.fromstring(doc).tostring(): r[3] = MARKER
+        except Exception: pass
     finally: signal.setitimer(signal.ITIMER_REAL, 0)
     r[2] = round(time.time() - t, 3)
-    res.append(r)
+    # one result per line, flushed: if this process has to be killed the parent still knows how far it got
+    sys.stdout.write(json.dumps(r) + '\n'); sys.stdout.flush()
     if r[0] in ('hang', 'memory'): break          # the process may be in a bad state: stop here
-json.dump(res, sys.stdout)
